@@ -482,8 +482,10 @@ _ext_cache = {}
 _nn_cache = {}
 
 
-def sum_nonneg(hyps, a):
-    key = (a.get_id(), hash(tuple(sorted(h.get_id() for h in hyps))))
+def sum_nonneg(hyps, a, exactly_zero=False):
+    """a sum of non-negative (resp. zero) terms is non-negative (resp. zero) - provable by induction; the pointwise fact is
+    established by a side proof at a fresh index"""
+    key = (a.get_id(), exactly_zero, hash(tuple(sorted(h.get_id() for h in hyps))))
     if key in _nn_cache:
         return _nn_cache[key]
     res = None
@@ -491,7 +493,7 @@ def sum_nonneg(hyps, a):
         k = z3.Int(fresh_name("xk"))
         zero = z3.IntVal(0) if a.sort() == z3.IntSort() else z3.RealVal(0)
         rng = [k >= a.arg(1), k < a.arg(2)]
-        goal = z3.Select(a.arg(0), k) >= zero
+        goal = (z3.Select(a.arg(0), k) == zero) if exactly_zero else (z3.Select(a.arg(0), k) >= zero)
         defs = relevant_defs(list(hyps) + rng + [goal])
         gi = ground_def_instances(list(hyps) + rng + [goal], defs) if defs else []
         s = z3.Solver()
@@ -503,7 +505,7 @@ def sum_nonneg(hyps, a):
         s.add(*defs)
         s.add(z3.Not(goal))
         if hard_check(s, 700) == z3.unsat:
-            res = (a >= zero)
+            res = (a == zero) if exactly_zero else (a >= zero)
     except z3.Z3Exception:
         res = None
     _nn_cache[key] = res
@@ -607,6 +609,9 @@ def spec_function_lemmas(hyps, goal, nonlinear=True):
         nn = sum_nonneg(hyps, t)
         if nn is not None:
             extra.append(nn)
+            zz = sum_nonneg(hyps, t, exactly_zero=True)
+            if zz is not None:
+                extra.append(zz)
     # extensionality: only between a sum that occurs in the goal and another sum with syntactically equal bounds
     goal_sums = {t.get_id() for t in ground_apps([goal], "Sum_")}
     tried = 0
